@@ -780,3 +780,146 @@ package exec
 //@     invariant 0 - 1 <= #k && #k < len(nodeSet) || (len(nodeSet) == 0 && #k == 0 - 1)
 //@     invariant sum == fsum(nodeSet, #k + 1)
 //@     decreases len(nodeSet) - #k
+
+// ---------- the evaluator: context threading (exec/contextfn_helpers.go, exec/context.go) ----------
+// Sem(b, lex, root, res, pos, env) is the specification's value of parse node b (module sem); every handler
+// must leave exactly that value in context.result and report an error exactly when Sem says so.
+
+//@ macro B = deref(expr.BSR)
+//@ macro CTX = expr.lex, context.root, old(absv(context.result)), old(context.contextPosition), context.ContextSettings
+//@ macro HPRE = context != nil && expr != nil && expr.BSR != nil && wf(expr.BSR) && resok(context.result) && wf(context.result)
+//@ macro HPOST = (err != nil) == semerr($B$, $CTX$) && (err == nil ==> absv(context.result) == sem($B$, $CTX$) && resok(context.result) && wf(context.result))
+
+//@ extern slot.Label.Slot(l) (r)
+//@   pure
+//@   uses sem
+//@   ensures r != nil && r.NT == labelNT(l)
+
+// A-BSR: GetAllNTChildren returns one group per nonterminal symbol of the production; every group is
+// a singleton (no ambiguous sub-derivation at this position) holding that child.
+//@ extern bsr.BSR.GetAllNTChildren(b) (r)
+//@   uses sem
+//@   ensures fresh(r) && len(r) == nntc(b) && nntc(b) >= 0
+//@   ensures forall i Int :: 0 <= i && i < len(r) ==> fresh(r[i]) && len(r[i]) == 1 && r[i][0] == ntchild(b, i)
+
+// every registered handler, applied to a node of the nonterminal it is registered for, satisfies the handler
+// contract: discharged per table entry by the obligations exec.execContext/dispatch[NT_x]
+//@ extern call.exec.contextFn(fn, context, expr) (err)
+//@   property C08 C01 C02 C05 C06 C18
+//@   uses sem
+//@   requires fn == handlerFn(nt($B$)) && $HPRE$
+//@   modifies context.result
+//@   ensures $HPOST$
+
+//@ func exprContext.copy(e) (r)
+//@   property C13 C15 C18 C02
+//@   requires e != nil
+//@   ensures r.root == e.root && r.result == e.result && r.contextPosition == e.contextPosition && r.ContextSettings == e.ContextSettings
+
+//@ func execContext(context, expr) (err)
+//@   property C08 C13 C15 C18 C02 C05 C06
+//@   uses sem
+//@   requires $HPRE$
+//@   modifies context.result
+//@   ensures $HPOST$
+
+//@ func execChildren(context, expr) (err)
+//@   property C08 C13 C15 C18
+//@   uses sem
+//@   requires $HPRE$ && handlerFn(nt($B$)) == nil
+//@   modifies context.result
+//@   ensures $HPOST$
+//@   loop 0
+//@     invariant #k == 0 - 1
+//@     decreases nntc($B$) - #k
+
+//@ macro SEM0 = sem(ntchild($B$, 0), $CTX$)
+//@ macro SEM1 = sem(ntchild($B$, 1), $CTX$)
+//@ macro ERR0 = semerr(ntchild($B$, 0), $CTX$)
+//@ macro ERR1 = semerr(ntchild($B$, 1), $CTX$)
+
+//@ func leftOnlyIndependentResult(context, expr) (r, err)
+//@   property C02 C06 C08 C13 C15
+//@   uses sem
+//@   requires $HPRE$ && nntc($B$) == 1
+//@   ensures (err != nil) == $ERR0$                                                       @error-iff-child-fails
+//@   ensures err == nil ==> absv(r) == $SEM0$ && resok(r) && wf(r)                        @value-of-the-child-in-a-copy-of-the-context
+//@   loop 0
+//@     invariant 0 - 1 <= #k && #k < nntc($B$)
+//@     invariant #k == 0 - 1 ==> execNext == nil
+//@     invariant #k >= 0 ==> execNext != nil && fresh(execNext) && deref(execNext) == ntchild($B$, #k)
+//@     decreases nntc($B$) - #k
+
+//@ func leftRightIndependentResult(context, expr) (l, r, err)
+//@   property C05 C06 C03 C08 C13 C15
+//@   uses sem
+//@   requires $HPRE$ && nntc($B$) == 2
+//@   ensures (err != nil) == ($ERR0$ || $ERR1$)                                           @error-iff-an-operand-fails
+//@   ensures err == nil ==> absv(l) == $SEM0$ && resok(l) && wf(l)                        @left-operand-is-child-0
+//@   ensures err == nil ==> absv(r) == $SEM1$ && resok(r) && wf(r)                        @right-operand-is-child-1
+//@   loop 0
+//@     invariant 0 - 1 <= #k && #k < nntc($B$)
+//@     invariant len(children) == #k + 1 && len(children) <= cap(children) && fresh(children)
+//@     invariant forall i Int :: 0 <= i && i <= #k ==> children[i] != nil && fresh(children[i]) && wf(children[i]) && deref(children[i]) == ntchild($B$, i)
+//@     decreases nntc($B$) - #k
+//@   loop 1
+//@     invariant 0 - 1 <= #k && #k <= 0 && 0 - 1 <= #outer && #outer + 1 < nntc($B$)
+//@     invariant len(children) == #outer + #k + 2 && len(children) <= cap(children) && fresh(children)
+//@     invariant forall i Int :: 0 <= i && i <= #outer + #k + 1 ==> children[i] != nil && fresh(children[i]) && wf(children[i]) && deref(children[i]) == ntchild($B$, i)
+//@     invariant forall i Int :: 0 <= i && i <= #outer ==> children[i] != addrof_c
+//@     invariant #k == 0 ==> children[#outer + 1] == addrof_c
+//@     decreases 1 - #k
+
+//@ func leftRightIndependentNumber(context, expr) (l, r, err)
+//@   property C06 C13 C15
+//@   uses sem
+//@   requires $HPRE$ && nntc($B$) == 2
+//@   ensures (err != nil) == ($ERR0$ || $ERR1$)
+//@   ensures err == nil ==> l == atoNum($SEM0$) && r == atoNum($SEM1$)                    @operands-converted-with-number
+
+//@ func execUnaryExprNegate(context, expr) (err)
+//@   property C06 C13 C15
+//@   uses sem
+//@   requires $HPRE$ && nt($B$) == NT_UnaryExprNegate
+//@   modifies context.result
+//@   ensures $HPOST$
+
+//@ func execAdditiveExprAdd(context, expr) (err)
+//@   property C06 C13 C15
+//@   uses sem
+//@   requires $HPRE$ && nt($B$) == NT_AdditiveExprAdd
+//@   modifies context.result
+//@   ensures $HPOST$
+
+//@ func execAdditiveExprSubtract(context, expr) (err)
+//@   property C06 C13 C15
+//@   uses sem
+//@   requires $HPRE$ && nt($B$) == NT_AdditiveExprSubtract
+//@   modifies context.result
+//@   ensures $HPOST$
+
+//@ func execMultiplicativeExprMultiply(context, expr) (err)
+//@   property C06 C13 C15
+//@   uses sem
+//@   requires $HPRE$ && nt($B$) == NT_MultiplicativeExprMultiply
+//@   modifies context.result
+//@   ensures $HPOST$
+
+//@ func execMultiplicativeExprDivide(context, expr) (err)
+//@   property C06 C13 C15
+//@   uses sem
+//@   requires $HPRE$ && nt($B$) == NT_MultiplicativeExprDivide
+//@   modifies context.result
+//@   ensures $HPOST$
+
+//@ func execMultiplicativeExprMod(context, expr) (err)
+//@   property C06 C13 C15
+//@   uses sem
+//@   requires $HPRE$ && nt($B$) == NT_MultiplicativeExprMod
+//@   modifies context.result
+//@   ensures $HPOST$
+
+//@ extern math.Mod(x, y) (r)
+//@   pure
+//@   uses num
+//@   ensures r == fmod(x, y)
